@@ -1469,6 +1469,25 @@ class ContactHandler(Messenger, dbus.service.Object):
                 item.total_length or 0,
                 'connection closed'
             )
+        # transfers cut off by the close are over as well
+        if self._rx_tmp is not None:
+            item = self._rx_tmp
+            self._rx_teardown()
+            self.recv_bundle_finished(
+                str(item.transfer_id),
+                item.file.tell(),
+                'connection closed'
+            )
+        for item in tuple(self._tx_map.values()):
+            self.send_bundle_finished(
+                str(item.transfer_id),
+                item.ack_length or 0,
+                'connection closed'
+            )
+        self._tx_map.clear()
+        self._tx_pend_ack.clear()
+        self._tx_tmp = None
+        self._tx_length = None
 
         if tuple(self.locations):
             self.remove_from_connection()
